@@ -774,12 +774,18 @@ class AdapterLookupBase:
         super().__init__()
 
     def changed(self, ignored=None):
-        super().changed(None)
-        for r in tuple(self._required.keys()):
+        # Forget the subscriptions first and drop the caches last:
+        # dropping a cache can run arbitrary code (the destructor of a
+        # cached value), and a lookup made by it must find itself
+        # unsubscribed, or its answer would be cached without a
+        # subscription to the required specifications.
+        required = tuple(self._required.keys())
+        self._required.clear()
+        for r in required:
             r = r()
             if r is not None:
                 r.unsubscribe(self)
-        self._required.clear()
+        super().changed(None)
 
     # Extendors
     # ---------
